@@ -45,11 +45,11 @@ DEFAULT_NOTE = ("Trusted: harness/abs field copies, the RFC reading in spec/*.tl
                 "through executions actually performed; inputs outside the enumerated domains and drivers are not covered.")
 NOT_YET = {}
 
-prop("C04", lambda t, s: [("mc", "Mc", "McVariants"), ("mc", "TwccAlg", n(t, "McTwcc", "McTwccThorough")), ("mc", "Mc", n(t, "McFaults", "McFaults2")), ("mc", "Mc", "McFaultsDev"), ("drive", "fuzz", n(t, 1200, 40000))],
+prop("C04", lambda t, s: [("mc", "Mc", "McVariants"), ("mc", "TwccAlg", n(t, "McTwcc", "McTwccThorough")), ("mc", "Mc", n(t, "McFaults", "McFaults2")), ("mc", "Mc", "McFaultsDev"), ("drive", "fuzz", n(t, 1200, 40000)), ("drive", "amplify", 0)],
      exhaustive_note="McVariants enumerates every alternative and count-inflated encoding of spec/Variants.tla over VarDom/InflateDom; McFaults every first-order fault on the tiny domain")
-prop("C06", lambda t, s: [("mc", "Datagram", n(t, "McDatagram", "McDatagram3")), ("mc", "Mc", n(t, "McDgram", "McDgram3")), ("drive", "frameseq", n(t, 600, 30000)), ("drive", "bigframes", n(t, 0, 1))],
+prop("C06", lambda t, s: [("mc", "Datagram", n(t, "McDatagram", "McDatagram3")), ("mc", "Mc", n(t, "McDgram", "McDgram3")), ("drive", "frameseq", n(t, 600, 30000)), ("drive", "bigframes", n(t, 0, 1)), ("drive", "amplify", 0)],
      exhaustive_note="McDgram enumerates every sequence of up to 2 (thorough: 3) pieces over the frame set of spec/Domain.tla (valid frames of every kind, raw frames, malformed frames, incomplete tails)")
-prop("C07", lambda t, s: [("mc", "Mc", n(t, "McDispatch", "McDispatchAll")), ("mc", "Mc", "McForeign"), ("mc", "Mc", "McWire"), ("drive", "fuzz", n(t, 600, 20000))],
+prop("C07", lambda t, s: [("mc", "Mc", n(t, "McDispatch", "McDispatchAll")), ("mc", "Mc", "McForeign"), ("mc", "Mc", "McWire"), ("drive", "fuzz", n(t, 600, 20000)), ("drive", "amplify", 0)],
      exhaustive_note="McDispatch enumerates 28 packet types (thorough: all 256) x 32 FMT values x 4 bodies; McForeign gives every star-domain encoding to all 16 decoders")
 prop("C08", lambda t, s: [("mc", "Mc", "McLimits"), ("drive", "limits", n(t, 1000, 60000))],
      exhaustive_note="McLimits enumerates the values at, just below and just above every wire limit named by the property (LimitDom of spec/Domain.tla)")
@@ -66,7 +66,7 @@ prop("C13", lambda t, s: [("mc", "TwccAlg", n(t, "McTwcc", "McTwccThorough")), (
 prop("C14", lambda t, s: [("mc", "RembAlg", n(t, "McRemb", "McRembThorough")), ("mc", "Mc", "McWireRemb"), ("drive", "rembrand", n(t, 300, 20000)), ("drive", "sweeps", n(t, 65537, 1)), ("drive", "amplify", 0)],
      exhaustive_note="McRemb steps the decoder loop on 53 structured mantissas x 5 exponents and the encoder loop on 128 boundary floats, and emits the complete 2^18 mantissa table at exponent 0 (thorough: at 0, 1, 31, 62, 63) plus the structured rows at 6 (thorough: all 64) exponents; the scaling lemma RowOK extends the exponent-0 table to the other exponents; the encoder is covered by the complete table of the 2^18 integers (thorough: also the 2^17 leading-18-bit values at one exponent) plus Go sweeps of the lemmas EncLemmas over all floats of each range (exhaustive in the thorough tier, every 4097th in the quick tier)")
 
-prop("C15", lambda t, s: [("mc", "XrWalk", n(t, "McXr", "McXrThorough")), ("mc", "Mc", "McWireXr"), ("drive", "xrrand", n(t, 1500, 60000)), ("drive", "bigframes", n(t, 0, 1))],
+prop("C15", lambda t, s: [("mc", "XrWalk", n(t, "McXr", "McXrThorough")), ("mc", "Mc", "McWireXr"), ("drive", "xrrand", n(t, 1500, 60000)), ("drive", "bigframes", n(t, 0, 1)), ("drive", "amplify", 0)],
      exhaustive_note="McXr enumerates every sequence of 0..2 (thorough: 0..3) report blocks over 17 block choices (the 7 defined kinds, unknown types 0, 8, 255 with different contents, empty and longer lists, other flag combinations) and walks each encoding with an independent block walker; McWireXr sweeps the XR star domain")
 
 prop("C16", lambda t, s: [("mc", "UnitsMc", "McUnitsThorough"), ("mc", "Mc", "McWireUnits"), ("mc", "Mc", "McWirePairs"), ("drive", "units", n(t, 2000, 50000)), ("drive", "sweeps", n(t, 65537, 1))],
